@@ -38,6 +38,7 @@ def check(ctx):
         t1, _ = GL.layout(rnd, lex)
         t2, _ = GL.layout(rnd, lex)            # a second, independent layout of the same lexemes
         cases.append((t1, exp)); cases.append((t2, exp))
+    cases = C.uniq(cases, key=lambda c: c[0])
     texts = [c[0] for c in cases]
     ctx.log(f"{len(texts)} lexeme sequences (each lexeme list laid out twice)")
     lines = [G.enc(t) for t in texts]
